@@ -14,8 +14,8 @@ func init() { register("C02", propC02) }
 
 func propC02() *Property {
 	return &Property{
-		ID:      "C02",
-		Decides: "the structure of the reliable-UDP machinery on every path the compiler can build. R02.1 the sender forgets a segment only under the peer's cumulative ack and inserts it in sendBuf before the first transmission (R13.3); R02.2 the receiver releases segments only at nextRecv, one at a time, and every ack field is a fresh load of nextRecv (R13.1, R13.2); R02.3 the peer's window is learned from every ack and every data segment: in inputAck every successful return of the datagram case is dominated by remoteWindowSize.Store(das.windowSize), in inputData that store is conditional only on the segment being a data/ack segment; R02.4 every data datagram, including duplicates and out-of-window ones, schedules an ack (ackOnDataRecv.Store(true) is unconditional in the datagram case and precedes every drop); R02.5 the ack/heartbeat decision is reached by every invocation of the output step that is not in the output-error state and is gated only by {session opening, ack requested, heartbeat interval} - never by a send or congestion window; the ack carries nextRecv and receiveWindowSize(); R02.6 retransmission: the sendBuf scan is gated only by the retransmission timer, never consults a window, retransmits on timeout, and the duplicate-ack trigger is bounded per segment (an Explorer run shows no path to a transmission with 'dup-ack threshold reached' true, 'within the early-retransmission limit' false and 'timed out' false), so duplicate acks cannot burn the 20-transmission budget; R02.7 only data is deferred while the client waits for the open response (isDataProtocol folded over all 16 protocol numbers is true exactly for the four data protocols; the deferral test returns false unless isClientPacketSessionOpening), and the open response moves the session to established and wakes the sender; R02.9 the congestion window can never reach 0: every write of it is the minimum or is clamped before the function returns, the clamp raises small values, the session's minimum is the positive constant 16, and the send window depends only on congestion window, in-flight count and the peer's window; R02.8 datagram authentication: delivered payloads are AEAD outputs, a bad datagram is discarded without touching the session (R04.1, R04.5).; R02.10 the datagram receive buffer is a constant-size buffer of at least the maximum supported MTU (1500), independent of the local MTU",
+		ID:         "C02",
+		Decides:    "the structure of the reliable-UDP machinery on every path the compiler can build. R02.1 the sender forgets a segment only under the peer's cumulative ack and inserts it in sendBuf before the first transmission (R13.3); R02.2 the receiver releases segments only at nextRecv, one at a time, and every ack field is a fresh load of nextRecv (R13.1, R13.2); R02.3 the peer's window is learned from every ack and every data segment: in inputAck every successful return of the datagram case is dominated by remoteWindowSize.Store(das.windowSize), in inputData that store is conditional only on the segment being a data/ack segment; R02.4 every data datagram, including duplicates and out-of-window ones, schedules an ack (ackOnDataRecv.Store(true) is unconditional in the datagram case and precedes every drop); R02.5 the ack/heartbeat decision is reached by every invocation of the output step that is not in the output-error state and is gated only by {session opening, ack requested, heartbeat interval} - never by a send or congestion window; the ack carries nextRecv and receiveWindowSize(); R02.6 retransmission: the sendBuf scan is gated only by the retransmission timer, never consults a window, retransmits on timeout, and the duplicate-ack trigger is bounded per segment (an Explorer run shows no path to a transmission with 'dup-ack threshold reached' true, 'within the early-retransmission limit' false and 'timed out' false), so duplicate acks cannot burn the 20-transmission budget; R02.7 only data is deferred while the client waits for the open response (isDataProtocol folded over all 16 protocol numbers is true exactly for the four data protocols; the deferral test returns false unless isClientPacketSessionOpening), and the open response moves the session to established and wakes the sender; R02.9 the congestion window can never reach 0: every write of it is the minimum or is clamped before the function returns, the clamp raises small values, the session's minimum is the positive constant 16, and the send window depends only on congestion window, in-flight count and the peer's window; R02.8 datagram authentication: delivered payloads are AEAD outputs, a bad datagram is discarded without touching the session (R04.1, R04.5).; R02.10 the datagram receive buffer is a constant-size buffer of at least the maximum supported MTU (1500), independent of the local MTU",
 		NotDecided: "liveness under a fair-lossy network as such (a temporal property over histories: needs a model, not this family); timer values and RTO arithmetic; cubic's window evolution; the segment tree's ordering; sequence wrap-around.",
 		Rules: []Rule{
 			{ID: "R02.1", Floor: 2, Text: "sendBuf deletions only under the peer's ack; Insert dominates output (shared with R13.3)", Run: r13_3},
@@ -1078,7 +1078,6 @@ func r02_9(c *RC) {
 		c.Bad("send-window-inputs", sw.Pos(), "sendWindowSize consults %v", keysOf(seen))
 	}
 }
-
 
 // r02_10: MTUs are configured per side (1280..1500). The buffer handed to
 // ReadFrom must hold a full datagram of a peer that uses the largest
